@@ -153,7 +153,7 @@ Theorem C16_fair_terminates :
   1 <= g_alpha g -> fresh_ids [] (es0 ++ es1) -> cmds_ok g es0 -> evs_in_U U es0 -> evs_in_U U es1 ->
   let s0 := fst (run g (st0 m) es0) in
   fair_run g s0 es1 ->
-  (length es1 <= budget (length U) g es0)%nat /\
+  (length (work es1) <= budget (length U) g es0)%nat /\
   (stuck (fst (run g s0 es1)) ->
    terminals q (snd (run g (st0 m) (es0 ++ es1))) = started q (es0 ++ es1) /\
    (started q (es0 ++ es1) <= 1)%nat).
@@ -343,17 +343,30 @@ Print Assumptions C16_default_config.
    peer the manager has no address for — the send phase starts, the peer is registered as failed at
    once and the operation reports QueryFailed *)
 Example C16_nonvacuous_undialable :
-  let g := mkG 20 3 99 in
+  let g := mkG 20 3 99 10 in
   snd (run g (st0 [(0, 0)]) [EPutToPeers 0 QOne [0]; EServe 0; EServe 0]) = [OTrack 0 [0]; OFailed 0].
 Proof. vm_compute. reflexivity. Qed.
 
 (* a FIND_NODE over one connected peer that answers: one terminal event, nothing left behind *)
 Example C16_nonvacuous_find :
-  let g := mkG 20 3 99 in
+  let g := mkG 20 3 99 10 in
   let es := [EEstablished 0 true; ECmd 0 CFindNode [0] [0]; EServe 0; EOpened 0 0;
              EFut 0 (RRead (MFindNode [])); EServe 0] in
   snd (run g (st0 [(0, 2)]) es) = [ORouting []; OFindNodeSuccess 0 [0]] /\
   eng (fst (run g (st0 [(0, 2)]) es)) = [] /\ futs (fst (run g (st0 [(0, 2)]) es)) = [].
+Proof. vm_compute. repeat split; reflexivity. Qed.
+
+(* peer timeout staleness inside the composition: parallelism factor 1, peer timeout 0, two seeds.  The
+   drain loop sends to peer 0 and stops (the slot is taken); once time has passed peer 0 is stale,
+   the next drain sends to peer 1 as well, and both remain waited for with exactly one obligation each *)
+Example C16_nonvacuous_stale :
+  let g := mkG 20 1 99 0 in
+  let s1 := fst (run g (st0 [(0, 2); (1, 2)])
+                   [EEstablished 0 true; EEstablished 1 true; ECmd 0 CFindNode [0; 1] [0; 1]; EServe 0; EServe 0]) in
+  let s2 := fst (run g s1 [ETick 1; EServe 0]) in
+  option_map waiting (aget 0 (eng s1)) = Some [0] /\ quiescent s1 = true /\
+  option_map waiting (aget 0 (eng s2)) = Some [0; 1] /\ quiescent s2 = true /\
+  cnt s2 true 0 0 = 1%nat /\ cnt s2 true 0 1 = 1%nat.
 Proof. vm_compute. repeat split; reflexivity. Qed.
 
 (* the composition is not vacuous: a world of three peers with 2-bit keys satisfies `keys_ok`; the peer
